@@ -121,6 +121,7 @@ class CRng:
         self.stream, self.counter = stream, counter
         self.bit_generator = _BitGen(self)
         self.p_seen = []
+        self.idx_seen = []
         self.used = 0
 
     def _next(self):
@@ -131,7 +132,9 @@ class CRng:
     def choice(self, n, size=None, replace=True, p=None):
         tag = self._next()
         self.p_seen.append(np.asarray(p, dtype=float))
-        return self.model.index(tag, int(size), int(n))
+        idx = self.model.index(tag, int(size), int(n))
+        self.idx_seen.append(np.asarray(idx))
+        return idx
 
 
 class World:
@@ -443,6 +446,27 @@ def oracle_run(w, props, bad, tag=""):
             bad.append(f"C08{tag}: log_evidence {float(final.log_evidence)!r} but the per-step ratios sum to {sum(ratios)!r}")
         if not close(final.log_evidence_error, math.sqrt(sum(variances))):
             bad.append(f"C08{tag}: log_evidence_error {float(final.log_evidence_error)!r} expected {math.sqrt(sum(variances))!r}")
+    if "C09" in props:
+        rng = w.rng
+        n_res = K + (1 if cfg.get("n_final") else 0)
+        if not (len(rng.p_seen) == n_res and len(w.kernel_inputs) == n_res):
+            bad.append(f"C09{tag}: {len(rng.p_seen)} weighted draws and {len(w.kernel_inputs)} kernel calls for {n_res} resampling steps")
+        else:
+            for t in range(n_res):
+                src = pops[min(t, K)]
+                x = np.asarray(src.x, float)
+                b0, b1 = betas[min(t, K)], (betas[t + 1] if t < K else 1.0)
+                lw = (b1 - b0) * (w.model.L(x) + w.model.PI(x) - w.model.Q(x))
+                want = np.exp(lw - logsumexp(lw))
+                M = N if t < K else N + 1
+                pv = rng.p_seen[t]
+                if pv.shape != want.shape or not np.allclose(pv, want, rtol=1e-9, atol=1e-12):
+                    bad.append(f"C09{tag}: resampling {t}: probability vector {pv.tolist()} expected {want.tolist()}")
+                idx, z = rng.idx_seen[t], w.kernel_inputs[t]
+                if len(idx) != M or len(z) != M:
+                    bad.append(f"C09{tag}: resampling {t}: {len(idx)} particles drawn, {len(z)} moved, {M} requested")
+                elif not np.array_equal(z, x[idx]):
+                    bad.append(f"C09{tag}: resampling {t}: the moved population is not the drawn copies of the source rows")
     if "C10" in props:
         for t, p in enumerate(list(pops) + [final]):
             x = np.asarray(p.x, float)
